@@ -520,6 +520,10 @@ fn c18_judge(c: &C18Case, obs: &mut Obs) -> Result<(), String> {
     };
     obs.label_if(12, c.bystanders & 3 != 0);
     let mut w = World1::new(app, entity);
+    // every public constructor gives an enabled animator (`as_disabled` is the only way to get another)
+    if w.animator_a().2 == c.start_disabled {
+        return Err(format!("a freshly constructed animator reports enabled = {} (constructed {})", w.animator_a().2, if c.start_disabled { "with as_disabled()" } else { "without as_disabled()" }));
+    }
     let mut cur: Option<TlInForce> = if c.with_timeline { Some(main_in_force()) } else { None };
     obs.label_if(17, c.extra.is_some());
     obs.label_if(11, !c.with_timeline);
@@ -841,6 +845,9 @@ fn c19_judge(c: &C19Case, obs: &mut Obs) -> Result<(), String> {
     }
     let entity = ec.id();
     let mut w = World1::new(app, entity);
+    if !w.animator_a().2 {
+        return Err("a freshly constructed animator (Animator::new / default / with_timeline) is not enabled".into());
+    }
     let mk = |chain_first: bool| Hyp { chain_first, alive: true, why_dead: String::new(), acted_key: None, tl: None };
     let mut hyps = vec![mk(true), mk(false)];
     let mut key: u8 = c.initial_key % 4; // the key as the schedule last set it / as the frames left it
